@@ -8,7 +8,7 @@ interpreter only rewrites source expressions into algebra and refuses (Unsupport
 import sympy as sp
 from sympy import Rational, Symbol, Function
 
-from .hir import peel, place, pp, callee, pat_binds
+from .hir import peel, place, pp, callee, pat_binds, walk
 
 
 def S(name):
@@ -47,6 +47,25 @@ class Opaque:
 
     def __repr__(self):
         return "Opaque(%s)" % self.what
+
+
+class PlaceRef:
+    """`let r = &mut v[i];` — a mutable reference to an element: reads and writes through `*r` are redirected to the place expression it was
+    taken of (evaluated in the same function; the index must not have changed in between)."""
+    def __init__(self, node, idx):
+        self.node, self.idx = node, idx
+
+    def __repr__(self):
+        return "PlaceRef(%s)" % pp(self.node)
+
+
+class FnVal:
+    """A function passed by path where a closure is expected (`.map(N::from_real)`, `.unwrap_or_else(N::zero)`)."""
+    def __init__(self, node):
+        self.node = node
+
+    def __repr__(self):
+        return "FnVal(%s)" % self.node.get("def")
 
 
 class ClosureVal:
@@ -209,6 +228,9 @@ class Interp:
         elif k == "Wild":
             pass
         elif k == "PTuple":
+            if isinstance(val, sp.Symbol) and "dd" not in pat:
+                # destructuring an abstract tuple (a parameter): its components are the field symbols `name.0`, `name.1`, … (as ev_Field names them)
+                val = tuple(self.fields.setdefault("%s.%d" % (val.name, i), self.sym("%s.%d" % (val.name, i))) for i in range(len(pat["ps"])))
             if not isinstance(val, tuple) or len(val) != len(pat["ps"]):
                 raise Unsupported(node or pat, "tuple pattern against non-tuple value %r" % (val,))
             for q, v in zip(pat["ps"], val):
@@ -299,6 +321,8 @@ class Interp:
         v = self.ev(n["e"])
         if isinstance(v, Variant) and v.name in ("Ok", "Some") and len(v.args) == 1:
             return v.args[0]
+        if isinstance(v, Variant) and v.name in ("Err", "None"):
+            raise Return(v)      # `?` on a known failure leaves the function with it
         return v
 
     def ev_Tup(self, n):
@@ -307,8 +331,15 @@ class Interp:
     def ev_Array(self, n):
         return [self.ev(x) for x in n["es"]]
 
+    def place_of_ref(self, r, n):
+        if self.ev(peel(r.node)["i"]) != r.idx:
+            raise Unsupported(n, "the index of a borrowed element changed while the reference was alive")
+        return r.node
+
     def ev_Un(self, n):
         v = self.ev(n["e"])
+        if isinstance(v, PlaceRef):
+            v = self.ev(self.place_of_ref(v, n))
         if n["op"] == "Deref":
             return v
         if n["op"] == "Neg":
@@ -439,10 +470,24 @@ class Interp:
         raise Continue(n.get("target"))
 
     def ev_Assign(self, n):
-        self.assign(n["l"], self.ev(n["r"]), n)
+        self.assign(self.through_ref(n["l"]), self.ev(n["r"]), n)
         return None
 
+    def through_ref(self, lhs):
+        """`*r = …` with r a PlaceRef: the place it refers to."""
+        l = lhs
+        while isinstance(l, dict) and l.get("k") in ("Paren", "DropTemps", "Use"):
+            l = l.get("e")
+        if isinstance(l, dict) and l.get("k") == "Un" and l.get("op") == "Deref":      # (hir.peel would strip the `*`)
+            inner = peel(l["e"])
+            if inner.get("k") == "Local" and isinstance(self.env.get(inner["id"]), PlaceRef):
+                return self.place_of_ref(self.env[inner["id"]], lhs)
+        return lhs
+
     def ev_AssignOp(self, n):
+        if self.through_ref(n["l"]) is not n["l"]:
+            n = dict(n, l=self.through_ref(n["l"]))
+            return self.ev_AssignOp(n)
         cur = self.num(self.ev(n["l"]), n["l"])
         rhs = self.num(self.ev(n["r"]), n["r"])
         op = n["op"].replace("Assign", "")
@@ -476,6 +521,12 @@ class Interp:
             fp = peel(f)
             if fp.get("k") == "Local" and isinstance(self.env.get(fp["id"]), ClosureVal):
                 return self.apply_closure(self.env[fp["id"]], [self.ev(a) for a in n["args"]], n)
+            if fp.get("k") == "Local":
+                # a local closure (`let midpoint = |lo, hi| …;`) whose `let` this evaluation did not run (a loop body explored on its own):
+                # apply its definition — its captures are read from the current environment, as a by-reference capture would
+                cdef = self.closure_def(fp["id"])
+                if cdef is not None:
+                    return self.apply_closure(ClosureVal(cdef, None), [self.ev(a) for a in n["args"]], n)
             pl = self.norm_place(place(f))
             if pl is None:
                 raise Unsupported(n, "call of a non-place callable")
@@ -496,6 +547,25 @@ class Interp:
             raise Unsupported(n, "vec! shape")
         if d in self.lazy_hooks:
             return self.lazy_hooks[d](self, n)
+        if d in ("std::mem::replace", "core::mem::replace", "std::mem::take", "core::mem::take", "std::mem::swap", "core::mem::swap") and n["args"]:
+            # mem::replace(&mut place, v) / mem::take(&mut place) / mem::swap(&mut a, &mut b): reads and writes of the places
+            tgt = peel_ref_mut(n["args"][0])
+            if tgt is None:
+                raise Unsupported(n, "%s on something that is not `&mut place`" % d)
+            old_ = self.ev(tgt)
+            if d.endswith("replace"):
+                self.assign(self.through_ref(tgt), self.ev(n["args"][1]), n)
+                return old_
+            if d.endswith("take"):
+                self.assign(self.through_ref(tgt), [] if isinstance(old_, list) else sp.Integer(0), n)
+                return old_
+            other = peel_ref_mut(n["args"][1])
+            if other is None:
+                raise Unsupported(n, "%s on something that is not `&mut place`" % d)
+            vb = self.ev(other)
+            self.assign(self.through_ref(tgt), vb, n)
+            self.assign(self.through_ref(other), old_, n)
+            return None
         if d in self.call_hooks:
             return self.call_hooks[d](self, n, [self.ev(a) for a in n["args"]])
         if last in self.call_hooks:
@@ -509,6 +579,9 @@ class Interp:
             return v0
         if last in TRANSPARENT_CALLS and len(n["args"]) == 1:
             return self.ev(n["args"][0])
+        if (d.endswith("Complex::<T>::new") or d.endswith("Complex::new")) and len(n["args"]) == 2:
+            re_, im_ = self.num(self.ev(n["args"][0]), n), self.num(self.ev(n["args"][1]), n)
+            return re_ if im_ == 0 else re_ + sp.I * im_
         if d.endswith("One::one"):
             return sp.Integer(1)
         if d.endswith("Zero::zero"):
@@ -523,6 +596,20 @@ class Interp:
         raise Unsupported(n, "call of %s" % d)
 
     inline_depth = 0
+
+    def closure_def(self, local_id):
+        """The closure expression an immutable local of the current body is bound to by its single `let` (None otherwise)."""
+        cache = self.__dict__.setdefault("_closure_defs", {})
+        key = (id(self.body), local_id)
+        if key not in cache:
+            found = [x for x in walk(self.body["body"]) if x.get("k") == "LetS" and x["pat"].get("k") == "Bind" and x["pat"]["id"] == local_id]
+            c = None
+            if len(found) == 1 and "init" in found[0] and "Mut)" not in found[0]["pat"].get("mode", ""):
+                init = peel(found[0]["init"])
+                if init.get("k") == "Closure":
+                    c = init
+            cache[key] = c
+        return cache[key]
 
     def inline_here(self, body, arg_nodes, n, recv_value=None):
         """Evaluate a crate-local function body with *this* interpreter (shared fields, decisions, hooks and user-call log); the caller's locals
@@ -570,7 +657,45 @@ class Interp:
             flat.append(a)
         return self.fn_atom(pl)(*flat)
 
+    def apply_fn(self, fv, args, n):
+        d = fv.node.get("ctor_of") or fv.node.get("def") or ""
+        last = d.split("::")[-1]
+        if fv.node.get("dk", "").startswith("Ctor"):
+            return Variant(last, list(args))
+        if last in TRANSPARENT_CALLS and len(args) == 1:
+            return args[0]
+        if d.endswith("Zero::zero") and not args:
+            return sp.Integer(0)
+        if d.endswith("One::one") and not args:
+            return sp.Integer(1)
+        if d.endswith("Default::default") and not args:
+            return sp.Integer(0)
+        cands = self.F.by_path.get(d, []) if hasattr(self.F, "by_path") else []
+        if len(cands) == 1 and not cands[0].get("impl_self"):
+            return self.call_crate_fn(cands[0], list(args), n)
+        raise Unsupported(n, "function value %s" % d)
+
+    def call_crate_fn(self, body, args, n):
+        """A crate function applied to *values* (no argument nodes): evaluated in place with this interpreter."""
+        saved_env, saved_names = self.env, self.names
+        self.env, self.names = {}, {}
+        self.inline_depth += 1
+        try:
+            if len(body["params"]) != len(args):
+                raise Unsupported(n, "arity mismatch calling %s" % body["path"])
+            for p_, a_ in zip(body["params"], args):
+                self.bind(p_, a_, n)
+            try:
+                return self.ev(body["body"])
+            except Return as r:
+                return r.value
+        finally:
+            self.env, self.names = saved_env, saved_names
+            self.inline_depth -= 1
+
     def apply_closure(self, cv, args, n):
+        if isinstance(cv, FnVal):
+            return self.apply_fn(cv, args, n)
         node = cv.node
         saved = dict(self.env)
         try:
@@ -655,7 +780,11 @@ class Interp:
                     self.ev(s["els"])
                     raise Unsupported(s, "let-else whose else block does not diverge")
             elif "init" in s:
-                self.bind(s["pat"], self.ev(s["init"]), s)
+                tgt = peel_ref_mut(s["init"])
+                if tgt is not None and peel(tgt).get("k") == "Index" and s["pat"].get("k") == "Bind" and not (peel(tgt).get("ty") or "").startswith("["):
+                    self.bind(s["pat"], PlaceRef(tgt, self.ev(peel(tgt)["i"])), s)
+                else:
+                    self.bind(s["pat"], self.ev(s["init"]), s)
             else:
                 for (i, nm) in pat_binds(s["pat"]):
                     self.names[i] = nm
@@ -704,6 +833,8 @@ class Interp:
                 if inner is not None:
                     return inner
                 v = self.ev(it["recv"])
+                if isinstance(v, sp.MatrixBase) and 1 in v.shape:
+                    return list(v)       # a vector: its entries in order
                 return list(v) if isinstance(v, (list, tuple)) else None
             if inner is None:
                 return None
